@@ -62,6 +62,8 @@ def flags_of(src):
         fl.add("d")
     if "def make(" in src:
         fl.add("closure")
+    if src.startswith("class _K:"):
+        fl.update({"inclass", "under"})
     if src.startswith("class K:"):
         fl.add("inclass")
         if "    def make():" in src:
